@@ -33,6 +33,11 @@ TInit == /\ tid \in 1..N /\ l = 1 /\ lay = Traces[tid].lay
 \* data consistency of the layout itself: every clause is evaluated (a failing one is printed, the others are still checked)
 Soft(name, ok, r) == IF ok THEN TRUE ELSE PrintT(<<"LAY", Traces[tid].id, name, r>>)
 BadGroups == {g \in Groups(L) : ~(Reg(L, g).nmiss = 0 /\ (Reg(L, g).declw = 0 \/ Reg(L, g).declw = Reg(L, g).subsw))}
+\* coverage of the case space (size class x control level) of CfgArea.tla, decided here and only counted by the harness: a trace marked
+\* `cov` reports the cases that exist on its layout (with its first event) and the case of every configuration that writes the size
+\* bit-field or a control bit-field; the harness demands that every case that exists was executed on the real code (else: machinery)
+Cov == "cov" \in DOMAIN Traces[tid] /\ Traces[tid].cov
+CovCase(ws, b2) == (Cov /\ (SizeWrites(L, ws) # {} \/ TouchesCtrl(L, ws))) => PrintT(<<"COV", Traces[tid].id, l, CaseOfWrite(L, ws, b2)[1], CaseOfWrite(L, ws, b2)[2]>>)
 TLayout == /\ Is("Layout") /\ UNCHANGED <<lay, bits, cfg, bin, nrm, gen, act>>
            /\ Soft("GroupsConsistent", GroupsConsistent(L), IF BadGroups = {} THEN 0 ELSE CHOOSE g \in BadGroups : \A x \in BadGroups : g <= x)
            /\ Soft("NoOverlap", NoOverlap(L), IF L.ovl = <<>> THEN 0 ELSE L.ovl[1])
@@ -42,6 +47,7 @@ TLayout == /\ Is("Layout") /\ UNCHANGED <<lay, bits, cfg, bin, nrm, gen, act>>
            /\ Adv
 TNewObject == /\ Is("NewObject")
               /\ IF l = 1 THEN UNCHANGED <<lay, bits, cfg, bin, nrm, gen, act>> ELSE NewObject
+              /\ ((Cov /\ l = 1) => \A cs \in CasesPossible(L) : PrintT(<<"APPL", Traces[tid].id, cs[1], cs[2]>>))
               /\ Check("Constructs", E.ok) /\ Check("Structure", E.struct)
               /\ StateMatches("Preset", bits', E.post) /\ Adv
 TTemplate == /\ Is("Template") /\ Template
@@ -53,7 +59,7 @@ TLoadConfig == /\ Is("LoadConfig") /\ LoadConfig
                /\ StateMatches(IF act.a = "Template" THEN "TemplateState" ELSE "ConfigRoundTrip", bits', E.post) /\ Adv
 TSetValues == /\ Is("SetValues") /\ SetValues(E.w)
               /\ Check("InRangeAccepted", E.ok)
-              /\ StateMatches("SetValues", bits', E.post) /\ Adv
+              /\ StateMatches("SetValues", bits', E.post) /\ CovCase(E.w, bits') /\ Adv
 TExport == /\ Is("Export") /\ Export(E.seal)
            /\ Check("Exports", E.ok)
            /\ Check("SizeFixed", E.size = ExpSize(L, bits))
